@@ -1804,6 +1804,10 @@ def run_c03(ctx):
         return l
     correspond(ctx, res, cases, line_filter=keep, oracle=c03_oracle,
                known=lambda s, r, o: match_known("C03", s, r, o), per_proc=8)
+    # the capacity arithmetic of strbuf.c / strvec.c / the element vectors: MemModel.v against harness/memdrv.c
+    if rc is None and not res.violations:
+        import memcheck
+        memcheck.run(ctx, res, 60 if ctx.tier == "quick" else 1500)
     return res
 
 
